@@ -305,3 +305,7 @@ def L_deep_field(desc, name):
         if d.get("k") == "e":
             return False
     return False
+
+
+SWEEP = ["concurrent/test_id_allocator.cpp",
+         "concurrent/test_deposit_box.cpp"]
